@@ -90,6 +90,12 @@ def run_tlc_jobs(ctx, consts):
             kw["constants"] = {"InitialCapacity": ic, "Growth": gr}
         if kind == "sim":
             kw.update(simulate=nsim, depth=260, workers=min(4, workers))
+        elif kind == "mc":
+            kw["workers"] = max(4, NCPU - 4)      # the big exhaustive runs; the generation runs next to them use one worker each
+        elif kind in ("gen", "mcgen"):
+            # one worker: with a VIEW the representative history of a state is the first one TLC
+            # finds, and only a single-threaded BFS finds the same one on every run
+            kw["workers"] = 1
         r = tlc(ctx, module, **kw)
         if r.violated:
             # the model is ours: a violated invariant on it is a defect of the spec, unless the
@@ -321,6 +327,22 @@ def generated_code_half(ctx, cov, assumptions):
     progs = sorted(p for p in glob.glob(os.path.join(CORPUS, "*.nano")) if not re.search(r"\.\w+\.nano$", p))
     if not progs:
         raise InfraError("empty corpus " + CORPUS)
+    # the language-level corpus of C01-C04 (rule families in every position, boundary values, seeded generator programs)
+    # goes through the same sanitised pipeline: the helpers nanoc emits into every program (int_to_string, string
+    # builtins, array helpers) are only exercised by programs, not by the container probe
+    from lib import families as _fam
+    from lib.gen_prog import Gen as _Gen
+    from lib.nano_ast import pretty as _pretty
+    gdir = ctx.dir("gencorpus")
+    fams = {k: v for k, v in _fam.all_families().items() if "__files__" not in v}
+    for k in sorted(fams):
+        open(os.path.join(gdir, "fam_%s.nano" % k), "w").write(_pretty(fams[k]))
+    for k in range(12 if ctx.tier == "quick" else 200):
+        open(os.path.join(gdir, "gen_%d_%d.nano" % (ctx.seed, k)), "w").write(_pretty(_Gen(ctx.seed * 7000003 + k).program()))
+    for k in range(6 if ctx.tier == "quick" else 80):
+        open(os.path.join(gdir, "genmap_%d_%d.nano" % (ctx.seed, k)), "w").write(_pretty(_Gen(ctx.seed * 7000003 + 500000 + k, features={"maps": True}).program()))
+    n_hand = len(progs)
+    progs += sorted(glob.glob(os.path.join(gdir, "*.nano")))
     logf = os.path.join(ctx.scratch, "nano_cc.log")
     first = run_program(ctx, tree, progs[0], None, log_cc=logf)
     rtlib = build_rtlib(ctx, tree, logf) if os.path.exists(logf) else None
@@ -343,6 +365,7 @@ def generated_code_half(ctx, cov, assumptions):
                programs_overflow_only=[r["name"] for r in by.get("overflow_report", [])],
                program_sample=dict(name=clean[0]["name"], stdout=clean[0]["native_out"][:300]) if clean else None,
                rtlib=bool(rtlib))
+    cov.update(programs_hand_written=n_hand, programs_generated=len(progs) - n_hand)
     if len(clean) + len(by.get("sanitizer", [])) < len(progs) // 2:
         raise InfraError("fewer than half of the C20 corpus ran to completion on both engines: %s" %
                          [(r["name"], r["status"]) for r in results if r["status"] not in ("clean", "sanitizer")][:10])
